@@ -168,6 +168,10 @@ func (x *wireExec) exchangeDial(cs *Case, wit interface{}) {
 			outcome = "closed-by-node"
 		} else {
 			outcome = "node-waits"
+			if atomic.LoadInt32(&sv.conn.readArmed) == 0 {
+				// nothing bounds this read; in production it is DialManager's only loop that sits here
+				x.s.Stat(surface+"_node_waits_without_read_deadline", 1)
+			}
 		}
 	default:
 		if atomic.LoadInt32(&nodeClosed) != 0 {
